@@ -38,3 +38,13 @@ func VerifC01ClientPrefixes() []VerifC01Prefix {
 	sort.Slice(out, func(i, j int) bool { return out[i].ID < out[j].ID })
 	return out
 }
+
+// VerifC01ForeignPrefix tells whether the prefix object of the session is not an entry of the client's own
+// table (DefaultPrefixes) but one built from a registration response (id and bytes, no port).
+func VerifC01ForeignPrefix(t *ClientTransport) bool {
+	if t.Prefix == nil {
+		return false
+	}
+	p, ok := DefaultPrefixes[t.Prefix.ID()]
+	return !ok || p != t.Prefix
+}
